@@ -27,6 +27,9 @@ func Generate(out *trace.W, o RunOpts) map[string]int {
 	for i := 0; i < o.Matrix; i++ {
 		r := rand.New(rand.NewSource(o.Seed*5000011 + int64(i)))
 		matrix(out, r, fmt.Sprintf("m%d_%d", o.Seed, i), stats)
+		for _, via := range []string{"cC", "cD", "cO", "cN", "cW"} {
+			funded(out, r, fmt.Sprintf("f%d_%d_%s", o.Seed, i, via), via, stats)
+		}
 	}
 	for i := 0; i < o.Grids; i++ {
 		r := rand.New(rand.NewSource(o.Seed*7000003 + int64(i)))
@@ -49,7 +52,7 @@ func worldWith(r *rand.Rand, decimals []uint32) *World {
 // matrix: every state-changing method through every kind of caller, in an order that makes each succeed at least
 // once, followed by the characteristic refusals (transitive redelegation, too many entries, foreign recipient).
 func matrix(out *trace.W, r *rand.Rand, tid string, stats map[string]int) {
-	w := worldWith(r, []uint32{3, 6}) // thresholds 1 and 10^3: every reward accrued over one fee-paying block is claimable
+	w := worldFor(r)
 	st := w.Genesis(out, tid)
 	c := w.C
 	n := 0
@@ -82,14 +85,6 @@ func matrix(out *trace.W, r *rand.Rand, tid string, stats map[string]int) {
 		step(d, Op{M: "undelegate", V: "v0", Amt: 1})
 		step(d, Op{M: "undelegate", V: "v0", Amt: 1})
 		step(d, Op{M: "undelegate", V: "v0", Amt: 1}) // with 40 s unbonding time or 2 entries: refused
-		if IsContract(d) {
-			// transfer() funded by the rewards the same call claims: the contract holds ~10^3 liquid next to rewards of
-			// 10^4..10^6 accrued over the fee-paying blocks above.  Amounts on both borders:
-			// liquid+claimable+1 (refused), liquid+1 and liquid+claimable (paid for by the claimed rewards), liquid (plain)
-			for _, k := range []int{4, 2, 3, 1, 0} {
-				step(d, Op{M: "transfer", To: d, Amt: w.EdgeAmount(preOf(st, w), d, k)})
-			}
-		}
 		w.Views(out, c, []string{d, "a0"})
 	}
 	// two calls in one transaction
@@ -107,6 +102,40 @@ func matrix(out *trace.W, r *rand.Rand, tid string, stats map[string]int) {
 	step("a3", sg(Op{M: "withdrawByMsg", V: "all"}))
 	w.Views(out, c, w.D)
 	stats["matrices"]++
+}
+
+// funded: transfer() paid for by the rewards the same call claims.  A fresh world per kind of caller (no other staker
+// dilutes the rewards): the contract delegates almost everything it holds (liquid 1000 -> 50), the fee-paying blocks of
+// those very steps accrue rewards of 10^5..10^6 on its stake, the threshold (1 or 10^3) lets them be claimed; then
+// transfer(self, a) with a on both borders: liquid+claimable+1 (refused), liquid+1 and liquid+claimable (only the claimed
+// rewards pay for them), liquid, liquid-1.
+func funded(out *trace.W, r *rand.Rand, tid, d string, stats map[string]int) {
+	w := worldWith(r, []uint32{3, 6})
+	st := w.Genesis(out, tid)
+	c := w.C
+	n := 0
+	step := func(o Op) {
+		checkClean(st)
+		cont := "A"
+		if r.Intn(2) == 0 {
+			cont = "B"
+		}
+		c = w.Step(out, c, st, n, Call{Caller: d, Sender: "a0", Ops: []Op{o}}, cont, stats)
+		n++
+		st = w.Accrue(out, c)
+	}
+	step(Op{M: "delegate", V: "v0", Amt: 900})
+	step(Op{M: "delegate", V: "v1", Amt: 50})
+	for _, k := range []int{4, 2, 3, 1, 0} {
+		p := preOf(st, w)
+		claim := w.EdgeAmount(p, d, 3) - p.bal[d]
+		if k == 2 && claim < 1 {
+			panic("harness: no claimable reward accrued where a reward-funded transfer is to be made")
+		}
+		step(Op{M: "transfer", To: d, Amt: w.EdgeAmount(p, d, k)})
+	}
+	w.Views(out, c, []string{d, "a0"})
+	stats["funded"]++
 }
 
 func checkClean(st trace.M) {
